@@ -717,6 +717,18 @@ func (e *env) main(inClose, closeReturned *bool) {
 		core.Resolve = func(proc, cb, name string, cur any) any {
 			tgt := byName[name]
 			if tgt == nil {
+				// the component of another processor: replaced by an object that is no processor
+				for _, r := range pr.Rules {
+					if r.Target == name && r.At == cb && r.Action == "substitute" && p.ProcByID(name) != nil {
+						if s, ok := e.subs[r.Sub]; ok {
+							return s
+						}
+						s := &simrt.Mark{M: 1}
+						e.ptrID[keyOf(reflect.ValueOf(s))] = "sub:" + r.Sub
+						e.subs[r.Sub] = s
+						return s
+					}
+				}
 				return nil
 			}
 			for _, r := range pr.Rules {
